@@ -326,3 +326,62 @@ def Expand(g, m, n):
 def AcqOut(x, y, mask, K):
     # the part of the symplectic sum over the first K qubits that comes from the qubits NOT selected by the (per-qubit) mask
     return 0 if K <= 0 else AcqOut(x, y, mask, K - 1) + ((x[2 * K - 1] * y[2 * K - 2] - x[2 * K - 2] * y[2 * K - 1]) if mask[K - 1] == 0 else 0)
+
+
+# ---------------------------------------------------------------- entropy kernel: row sums, boolean vectors, row / column selections
+@spec('int1', 'int')
+def RowSum(row, n):
+    return 0 if n <= 0 else RowSum(row, n - 1) + row[n - 1]
+
+
+@spec('int2', 'int', ret='int1')
+def RowSums(M, w):
+    # numpy.sum(M, -1) of an (L, w) array
+    return [RowSum(M[r], w) for r in range(len(M))]
+
+
+@spec('int1', ret='int1')
+def Nz(v):
+    # the boolean vector  v != 0
+    return [1 if v[c] != 0 else 0 for c in range(len(v))]
+
+
+@spec('int1', ret='int1')
+def Not1(m):
+    # ~m of a boolean vector
+    return [0 if m[c] != 0 else 1 for c in range(len(m))]
+
+
+@spec('int1', 'int1', ret='int1')
+def And1(a, b):
+    # numpy.logical_and of two boolean vectors
+    return [1 if (a[c] != 0 and b[c] != 0) else 0 for c in range(len(a))]
+
+
+@spec('int2', 'int1', 'int', ret='int2')
+def Cols(M, m, n):
+    # M[:, m] for a boolean column mask m of length n
+    return [Compress(M[r], m, n) for r in range(len(M))]
+
+
+@spec('int2', 'int1', 'int', ret='int2')
+def Rows(M, b, L):
+    # M[b] for a boolean row mask b of length L
+    return [M[MaskIdx(b, L)[k]] for k in range(MaskCnt(b, L))]
+
+
+@spec('int2', 'int', 'int', 'int', ret='int1')
+def AcqRow(M, a, L, n):
+    return [AcqSum(M[a], M[b], n) % 2 for b in range(L)]
+
+
+@spec('int2', 'int', 'int', ret='int2')
+def AcqMat(M, L, n):
+    # the anticommutation indicator matrix of the L rows of M (n qubits)
+    return [AcqRow(M, a, L, n) for a in range(L)]
+
+
+@spec('int2', 'int', 'int', ret='int2')
+def RowSlice(M, lo, hi):
+    # M[lo:hi] (rows)
+    return [M[r + lo] for r in range(hi - lo)]
